@@ -13,8 +13,11 @@ RULE = ("K: (a) _reversible_slice_boundaries for every T<=Tb, 1<=k<=max(T,1) com
         "linear+quadratic functional of FieldDetector records w.r.t. inv_permittivities (and inv_permeabilities) under "
         "GradientConfig(method='reversible', k-1 checkpoints) vs method='checkpointed', relative difference <= 1e-9 (float64) at "
         "cells outside PML, on tiny scenes (periodic / PML / PEC faces, plane source with GaussianPulse or CustomTimeSignal "
-        "profile that is non-zero at t<0, dipole, random material arrays, one conductive scene with a checkpoint at every "
-        "step), with the real backward/forward_single_args_wrapper traced and their schedule compared with the model. "
+        "profile that is non-zero at t<0, electric/magnetic dipole, random material arrays, one conductive scene with a checkpoint "
+        "at every step; every quick run contains a plane source (injects into H) with a pulse profile and a late-start OnOffSwitch "
+        "(on after ~40 % of the run) and an electric dipole with a late-start switch, and rotates with the seed through switch "
+        "kinds {interval 2, fixed on-steps not starting at 0, late start + interval} x H-injecting source kinds {plane, magnetic "
+        "dipole}; thorough: the full grid switch kind x {plane, magnetic dipole, electric dipole}), with the real backward/forward_single_args_wrapper traced and their schedule compared with the model. "
         "Independent oracles: toy gradient vs plain autodiff through a Python loop (dlt=0), reversible vs checkpointed gradient.")
 
 TOL = 1e-9
@@ -219,6 +222,40 @@ BOUNDS = {
 }
 
 
+SWITCH_KINDS = ("start", "interval", "fixed", "start_interval")
+
+
+def switch_on_steps(kind, T):
+    """the time steps at which a switch of this kind is on (what the harness intends; checked against the placed source)"""
+    s0 = max(1, round(0.4 * T))
+    if kind == "start":
+        return [t for t in range(T) if t >= s0]
+    if kind == "interval":
+        return [t for t in range(T) if t % 2 == 0]
+    if kind == "fixed":
+        return [t for t in range(T) if t % 3 != 0]          # does not start at step 0
+    if kind == "start_interval":
+        return [t for t in range(T) if t >= s0 and t % 2 == 0]
+    raise ValueError(kind)
+
+
+def make_switch(kind, T, dt):
+    """non-default OnOffSwitch: late start (on after ~40 % of the run), every second step, fixed on-steps not starting at 0"""
+    if not kind:
+        return None
+    from fdtdx.core.switch import OnOffSwitch
+    s0 = max(1, round(0.4 * T))
+    if kind == "start":
+        return OnOffSwitch(start_time=(s0 - 0.5) * dt)
+    if kind == "interval":
+        return OnOffSwitch(interval=2)
+    if kind == "fixed":
+        return OnOffSwitch(fixed_on_time_steps=switch_on_steps(kind, T))
+    if kind == "start_interval":
+        return OnOffSwitch(start_time=(s0 - 0.5) * dt, interval=2)
+    raise ValueError(kind)
+
+
 def build_scene(sp):
     j = J()
     fdtdx, jax, jnp = j["fdtdx"], j["jax"], j["jnp"]
@@ -233,7 +270,7 @@ def build_scene(sp):
     cons.extend(cl)
     wave = fdtdx.WaveCharacter(wavelength=8 * RES)
     src_kind = sp["source"]
-    if src_kind in ("plane_gauss", "dipole_gauss"):
+    if src_kind in ("plane_gauss", "dipole_gauss", "dipole_mag_gauss"):
         prof = fdtdx.GaussianPulseProfile(spectral_width=fdtdx.WaveCharacter(wavelength=sp.get("width", 40) * RES), center_wave=wave)
     elif src_kind == "plane_custom":
         r = np.random.default_rng(sp["seed"] + 77)
@@ -243,13 +280,18 @@ def build_scene(sp):
     else:
         raise ValueError(src_kind)
     zs = sp.get("src_z", n[2] // 2 - 1)
+    skw = {}
+    sw = make_switch(sp.get("switch"), T, dt)
+    if sw is not None:
+        skw["switch"] = sw
     if src_kind.startswith("plane"):
         src = fdtdx.UniformPlaneSource(partial_grid_shape=(None, None, 1), wave_character=wave, temporal_profile=prof,
-                                       direction="+", fixed_E_polarization_vector=(1, 0, 0))
+                                       direction="+", fixed_E_polarization_vector=(1, 0, 0), **skw)
         cons += [src.same_size(vol, axes=(0, 1)), src.place_at_center(vol, axes=(0, 1)),
                  src.set_grid_coordinates(axes=(2,), sides=("-",), coordinates=(zs,))]
     else:
-        src = fdtdx.PointDipoleSource(partial_grid_shape=(1, 1, 1), wave_character=wave, temporal_profile=prof, polarization=0)
+        src = fdtdx.PointDipoleSource(partial_grid_shape=(1, 1, 1), wave_character=wave, temporal_profile=prof, polarization=0,
+                                      source_type="magnetic" if src_kind == "dipole_mag_gauss" else "electric", **skw)
         cons.append(src.set_grid_coordinates(axes=(0, 1, 2), sides=("-", "-", "-"), coordinates=(n[0] // 2, n[1] // 2, zs)))
     objects.append(src)
     # the detector covers the source plane and its two neighbours and records at every step (first and last included)
@@ -272,6 +314,10 @@ def build_scene(sp):
     key = jax.random.PRNGKey(0)
     oc, arrays, params, config, _ = fdtdx.place_objects(object_list=objects, config=config, constraints=cons, key=key)
     arrays, oc, _ = fdtdx.apply_params(arrays, oc, params, key)
+    if sp.get("switch"):
+        on = [t for t, b in enumerate(np.asarray(oc.sources[0]._is_on_at_time_step_arr)) if b]
+        if on != switch_on_steps(sp["switch"], T):
+            raise RuntimeError(f"switch {sp['switch']}: source is on at {on}, intended {switch_on_steps(sp['switch'], T)}")
     return oc, arrays, config
 
 
@@ -364,14 +410,18 @@ def scene_property_fails(sp, ev=None):
 
 
 def quick_scenes(seed):
+    """four fixed shapes; [1] and [2] ALWAYS carry a late-start switch (H-injecting plane source with a pulse, electric dipole);
+    [3] rotates with the seed through switch kinds x H-injecting source kinds"""
+    rot_switch = ("interval", "fixed", "start_interval")[seed % 3]
+    rot_source = ("plane_gauss", "dipole_mag_gauss")[(seed // 3) % 2]
     return [
         {"kind": "scene", "T": 9, "n": [4, 4, 6], "bounds": "periodic", "source": "plane_gauss", "ks": [1, 3], "seed": seed},
         {"kind": "scene", "T": 10, "n": [4, 4, 10], "bounds": "pml_z", "source": "plane_custom", "ks": [2], "seed": seed + 1,
-         "src_z": 3},
+         "src_z": 3, "switch": "start"},
         {"kind": "scene", "T": 8, "n": [4, 4, 6], "bounds": "pec_pmc", "source": "dipole_gauss", "ks": [1], "seed": seed + 2,
-         "magnetic": True},
-        {"kind": "scene", "T": 6, "n": [4, 4, 6], "bounds": "periodic", "source": "plane_gauss", "ks": [6], "seed": seed + 3,
-         "lossy": 100.0},
+         "magnetic": True, "switch": "start"},
+        {"kind": "scene", "T": 6, "n": [4, 4, 6], "bounds": "periodic", "source": rot_source, "ks": [6], "seed": seed + 3,
+         "lossy": 100.0, "switch": rot_switch},
     ]
 
 
@@ -382,7 +432,18 @@ def thorough_scenes(seed):
         {"kind": "scene", "T": 12, "n": [4, 4, 6], "bounds": "periodic", "source": "plane_custom", "ks": [12], "seed": seed + 5,
          "lossy": 300.0},
         {"kind": "scene", "T": 1, "n": [3, 3, 5], "bounds": "periodic", "source": "plane_custom", "ks": [1], "seed": seed + 6},
-    ]
+        {"kind": "scene", "T": 10, "n": [4, 4, 10], "bounds": "pml_z", "source": "plane_custom", "ks": [2], "seed": seed + 7,
+         "src_z": 3},
+    ] + switch_scenes(seed + 8)
+
+
+def switch_scenes(seed, T=7):
+    """switch kinds x sources that inject into H (plane, magnetic dipole) and into E (electric dipole), smallest scenes"""
+    out = []
+    for i, (kind, source) in enumerate((k, s) for k in SWITCH_KINDS for s in ("plane_gauss", "dipole_mag_gauss", "dipole_gauss")):
+        out.append({"kind": "scene", "T": T, "n": [3, 3, 5], "bounds": "periodic", "source": source, "ks": [1 + i % 2], "seed": seed + i,
+                    "switch": kind, "width": 40})
+    return out
 
 
 def random_scene(rng, i):
@@ -405,6 +466,10 @@ def random_scene(rng, i):
         sp["lossy"] = lossy
     if rng.chance(0.3):
         sp["magnetic"] = True
+    if source != "plane_cw" and rng.chance(0.6):
+        sp["switch"] = SWITCH_KINDS[i % len(SWITCH_KINDS)]
+        if source == "dipole_gauss" and rng.chance(0.5):
+            sp["source"] = "dipole_mag_gauss"
     return sp
 
 
@@ -429,9 +494,10 @@ def run_scene(ctx, sp):
     pml = sp["bounds"].startswith("pml")
     for k, de, dm, log in res:
         ctx.case(sample={"scene": sp, "k": k, "rel_diff_eps": de, "rel_diff_mu": dm, "grad_scale": sc_e} if len(ctx.samples) < 5 else None,
-                 nontrivial=("scene", sp["bounds"], sp["source"], k > 1, bool(sp.get("lossy")), bool(sp.get("magnetic")))
+                 nontrivial=("scene", sp["bounds"], sp["source"], k > 1, bool(sp.get("lossy")), bool(sp.get("magnetic")), sp.get("switch"))
                  if sc_e > 0 else None, zero_gradient=not sc_e > 0,
-                 op="scene", bounds=sp["bounds"], source=sp["source"], slices=min(k, 4), lossy=bool(sp.get("lossy")))
+                 op="scene", bounds=sp["bounds"], source=sp["source"], slices=min(k, 4), lossy=bool(sp.get("lossy")),
+                 switch=sp.get("switch", "always_on"))
         ctx.expect_equal("real-schedule", {**sp, "ks": [k]}, fmt_log(log), expected_sched(ctx, sp["T"], k))
         ctx.impl_property_evals += 1
     if not finite:
@@ -537,7 +603,7 @@ def search(ctx, hints):
                 return
     cands = [{"kind": "scene", "T": T, "n": [3, 3, 5], "bounds": "periodic", "source": s, "ks": ks, "seed": 5}
              for T in (1, 2, 4) for s in ("plane_custom", "plane_gauss") for ks in ([1], [2] if T >= 2 else [1])]
-    cands += quick_scenes(11) + [random_scene(r, i) for i in range(ctx.scale(12, 60))]
+    cands += switch_scenes(21, T=5) + quick_scenes(11) + [random_scene(r, i) for i in range(ctx.scale(12, 60))]
     for sp in cands:
         ctx.impl_property_evals += 1
         release_jit()
